@@ -164,6 +164,12 @@ impl<T> AtomicWeak<T> {
     ) -> Result<Weak<T>, CompareExchangeError<Weak<T>, WeakSnapshot<'g, T>>> {
         #[cfg(feature = "circ_verif")]
         crate::verif::yp2(crate::verif::site::AW_CAS_WEAK, &self.link as *const _ as usize, expected.ptr.verif_word(), desired.ptr.verif_word());
+        #[cfg(feature = "circ_verif")]
+        if crate::verif::buggify(crate::verif::fault::AW_CAS_WEAK) {
+            // Spurious failure of the weak CAS: return what the `Err` arm below returns.
+            let current = WeakSnapshot::from_raw(self.link.load(failure), guard);
+            return Err(CompareExchangeError { desired, current });
+        }
         match self
             .link
             .compare_exchange_weak(expected.ptr, desired.ptr, success, failure)
